@@ -99,7 +99,11 @@ func runC17(c core.Case) core.Result {
 		clone string
 	}
 	var returned []held
-	overwrites, deletes, lbProbes, scans := 0, 0, 0, 0
+	overwrites, deletes, lbProbes, scans, emptied := 0, 0, 0, 0, 0
+	// churn: few versioned keys, many successful deletes, the list drained to nothing again and again
+	// (the list's height shrinks and grows; towers are unlinked on every level)
+	churn := c.Int("churn", 0) == 1
+	drainLeft := 0
 	fail := func(sig, f string, a ...any) {
 		res.Violate("C17", "C17/"+sig, "%s\nmaxLevel=%d p=%.3f users=%q\nlast ops: %s", fmt.Sprintf(f, a...), maxLevel, p, users, strings.Join(trace[max(0, len(trace)-12):], " ; "))
 	}
@@ -118,10 +122,33 @@ func runC17(c core.Case) core.Result {
 		}
 		return u, ts
 	}
+	if churn {
+		pick = func() (string, uint64) { return users[r.Intn(len(users))], uint64(r.Intn(3)) }
+	}
 	for i := 0; i < nops && res.Verdict == ""; i++ {
 		u, ts := pick()
+		x := r.Intn(100)
+		if churn {
+			if drainLeft == 0 && len(m.es) > 0 && r.Intn(40) == 0 {
+				drainLeft = len(m.es)
+			}
+			switch {
+			case drainLeft > 0 && len(m.es) > 0:
+				drainLeft--
+				j := r.Intn(len(m.es))
+				u, ts, x = m.es[j].user, m.es[j].ts, 50
+				if len(m.es) == 1 {
+					emptied++
+				}
+			case x >= 30 && x < 55 && len(m.es) > 0 && r.Intn(5) > 0:
+				j := r.Intn(len(m.es))
+				u, ts, x = m.es[j].user, m.es[j].ts, 50
+			case x >= 30 && x < 45:
+				x = 50
+			}
+		}
 		key := types.KeyWithTs(u, ts)
-		switch x := r.Intn(100); {
+		switch {
 		case x < 45: // Set
 			if ts > math.MaxInt64 {
 				ts = uint64(r.Intn(10))
@@ -215,7 +242,11 @@ func runC17(c core.Case) core.Result {
 	res.AddObs("lowerbound_probes", int64(lbProbes))
 	res.AddObs("scans", int64(scans))
 	res.AddObs("final_entries", int64(len(m.es)))
-	res.NonTrivial = overwrites > 0 && deletes > 0 && len(m.es) > 1
+	if churn {
+		res.AddObs("churn_sequences", 1)
+		res.AddObs("churn_list_emptied", int64(emptied))
+	}
+	res.NonTrivial = overwrites > 0 && deletes > 0 && (len(m.es) > 1 || churn)
 	res.Hash = core.HashOf(trace)
 	if c.Int("sample", 0) == 1 {
 		res.Sample = map[string]any{"maxLevel": maxLevel, "p": p, "users": users, "first_ops": trace[:min(12, len(trace))], "final_entries": len(m.es)}
@@ -242,6 +273,13 @@ func genC17(tier string, seed int64) []core.Case {
 		if i < 3 {
 			c.N["sample"] = 1
 		}
+		if i%3 == 1 {
+			c.N["churn"] = 1
+			c.N["nkeys"] = int64(2 + r.Intn(4))
+			if c.N["maxLevel"] == 1 {
+				c.N["maxLevel"] = int64(2 + r.Intn(12))
+			}
+		}
 		cs = append(cs, c)
 	}
 	return cs
@@ -250,7 +288,7 @@ func genC17(tier string, seed int64) []core.Case {
 func init() {
 	core.Register(&core.Check{
 		Prop: "C17", Level: "exploration",
-		Rule: "case = one random sequence of 50-500 Set/Delete/Get/LowerBound/Scan/All calls on a fresh skiplist (maxLevel 1..16, p 0.01..0.99, hostile/binary/long user keys x versions 0..9 plus extreme versions); every result is compared with a sorted-slice model; non-trivial = at least one overwrite of an existing versioned key and one successful Delete and >1 entry left; distinct by hash of the operation sequence",
+		Rule: "case = one random sequence of 50-500 Set/Delete/Get/LowerBound/Scan/All calls on a fresh skiplist (maxLevel 1..16, p 0.01..0.99, hostile/binary/long user keys x versions 0..9 plus extreme versions; every third sequence a churn sequence: 2-5 user keys x 3 versions, a third of the calls successful Deletes, the list drained to empty now and then so that its height shrinks and grows); every result is compared with a sorted-slice model; non-trivial = at least one overwrite of an existing versioned key and one successful Delete and >1 entry left; distinct by hash of the operation sequence",
 		Gen:  genC17, Run: runC17, BatchSize: 500, GoMaxProcs: 1, Parallel: 16,
 		MinNonTrivial: map[string]int{"quick": 500, "thorough": 20000},
 		Assumptions:   []string{"versioned keys only (user@ts), as the engine uses the skiplist", "single goroutine: the memtable serialises access with its own lock"},
